@@ -54,14 +54,18 @@ def gen_cp_events(seed: int, n_steps: int = 2, n_streams: int = 2, sync_records:
             op = synth.host_op(rng.choice(["aten::mm", "aten::add", "aten::linear", "aten::conv2d"]), t, d)
             body.append(op)
             inner_t0, inner_t1 = t + (0 if rng.random() < 0.3 else q), t + d - (0 if rng.random() < 0.3 else q)
-            if annotations and rng.random() < 0.4 and inner_t1 - inner_t0 >= 3 * q:
+            ann_mode = rng.choice(["whole", "first_child_only"]) if (annotations and rng.random() < 0.5) else None
+            if ann_mode == "whole" and inner_t1 - inner_t0 >= 3 * q:
                 body.append(synth.annotation("my_region", inner_t0, inner_t1 - inner_t0))
-            if rng.random() < 0.5 and inner_t1 - inner_t0 >= 3 * q:
+            if (rng.random() < 0.5 or ann_mode == "first_child_only") and inner_t1 - inner_t0 >= 3 * q:
                 mid = inner_t0 + q * rng.randint(1, max(1, (inner_t1 - inner_t0) // q - 2))
+                if ann_mode == "first_child_only":
+                    body.append(synth.annotation("my_region", inner_t0, mid - inner_t0))  # encloses inner_a only
                 body.append(synth.host_op("aten::inner_a", inner_t0, mid - inner_t0))
                 launch_zone = (inner_t0, mid)
-                if inner_t1 - mid >= q and rng.random() < 0.7:
-                    body.append(synth.host_op("aten::inner_b", mid, inner_t1 - mid))
+                b0 = mid + q * rng.randint(0, 1)
+                if inner_t1 - b0 >= q and (rng.random() < 0.7 or ann_mode == "first_child_only"):
+                    body.append(synth.host_op("aten::inner_b", b0, inner_t1 - b0))
             else:
                 launch_zone = (inner_t0, inner_t1)
             if launch_zone[1] - launch_zone[0] >= 2 * q and (rng.random() < 0.85 or not kernels):
@@ -88,4 +92,15 @@ def gen_cp_events(seed: int, n_steps: int = 2, n_streams: int = 2, sync_records:
         t = e0 + q * rng.randint(0, 1)
     for k in kernels:
         evs.insert(rng.randint(1, len(evs)), k)
+    if seed % 2 == 0:
+        # let an operator with two children be the first event of the file (event id 0), instead of the small leading op
+        for i, e in enumerate(evs):
+            if e.get("name") == "aten::inner_b":
+                owner = max((j for j in range(i) if evs[j].get("cat") == "cpu_op" and evs[j]["name"].startswith("aten::") and not evs[j]["name"].startswith("aten::inner")
+                             and evs[j]["ts"] <= e["ts"] and e["ts"] + e["dur"] <= evs[j]["ts"] + evs[j]["dur"]), default=None)
+                if owner is not None:
+                    op = evs.pop(owner)
+                    evs.pop(0)
+                    evs.insert(0, op)
+                    break
     return evs
